@@ -47,7 +47,11 @@ Proof.
     - apply h_kill_spec in H. destruct H as (rc & _ & _ & _ & _ & ->). reflexivity.
     - apply h_update_ctx_spec in H. destruct H as (rc & capo & _ & _ & _ & _ & _ & _ & _ & _ & _ & ->).
       reflexivity.
-    - exfalso. eapply Hne. reflexivity. }
+    - exfalso. eapply Hne. reflexivity.
+    - mod_shape H; reflexivity.
+    - mod_shape H; reflexivity.
+    - mod_shape H; reflexivity.
+    - mod_shape H; reflexivity. }
   rewrite Eq in He'.
   destruct (get c (ctxs s)) as [rc|] eqn:G.
   - rewrite (C10_counter_msg _ _ _ _ _ _ _ Hcfg HI Hwf Hne H G G'). eapply Hs; eauto.
@@ -205,7 +209,8 @@ Qed.
 
 Definition queues_at_now (o : Op) (c : CtxId) : Prop :=
   match o with
-  | OCall c' _ _ _ _ _ _ _ _ _ _ _ _ | OModCall c' _ _ _ _ _ _ _ _ _ _ _ _ _ | OStart c' _ _ => c' = c
+  | OCall c' _ _ _ _ _ _ _ _ _ _ _ _ | OModCall c' _ _ _ _ _ _ _ _ _ _ _ _ _ | OStart c' _ _
+  | OModStart c' _ => c' = c
   | _ => False
   end.
 
@@ -268,6 +273,19 @@ Proof.
   - apply h_update_ctx_spec in H. destruct H as (rc & capo & _ & _ & _ & _ & _ & _ & _ & _ & _ & ->).
     split; [reflexivity|]. split; [reflexivity|]. split; [reflexivity|]. intros c0. left. now apply Hsame.
   - exfalso. eapply Hne. reflexivity.
+  - apply h_mod_update_gen in H. destruct H as (rc & t & capo & _ & _ & _ & ->).
+    split; [reflexivity|]. split; [reflexivity|]. split; [reflexivity|]. intros c0. left. now apply Hsame.
+  - apply h_mod_pause_spec in H. destruct H as (rc & _ & _ & _ & _ & ->).
+    split; [reflexivity|]. split; [reflexivity|]. split; [reflexivity|]. intros c0. left. now apply Hsame.
+  - apply h_mod_start_spec in H. destruct H as (rc & _ & _ & _ & ->). unfold started in *.
+    destruct (negb (has c (expq_h s)) && negb (has c (newq_h s))) eqn:Eb.
+    + apply andb_prop in Eb. destruct Eb as [Eb1 Eb2].
+      apply negb_true_iff, has_false in Eb1. apply negb_true_iff, has_false in Eb2.
+      split; [reflexivity|]. split; [reflexivity|]. split; [reflexivity|].
+      apply (Hadd c); try assumption; reflexivity.
+    + split; [reflexivity|]. split; [reflexivity|]. split; [reflexivity|]. intros c0. left. now apply Hsame.
+  - apply h_mod_kill_spec in H. destruct H as (rc & _ & _ & _ & ->).
+    split; [reflexivity|]. split; [reflexivity|]. split; [reflexivity|]. intros c0. left. now apply Hsame.
 Qed.
 
 (* ------------------------------------------------------------------ *)
